@@ -9,7 +9,7 @@ from .alg import Poly, as_poly, AlgError, ONE
 from . import tens as T
 from .tens import Tens, Unsupported, ShapeError, is_sym
 
-BASE_VARYING = {"k", "k1", "x", "x1", "u", "I", "F", "Fx", "Ix", "carry", "idx", "PSum", "Strided"}
+BASE_VARYING = {"k", "k1", "x", "x1", "u", "I", "F", "Fx", "Ix", "carry", "idx", "PSum", "Strided", "At0"}
 SCALAR_TAGS = {"s", "num", "dc", "Idc", "Sum", "Mean", "Std", "Max", "Min", "Var", "RSum", "expc", "StdC", "MaxC", "MinC"}
 
 _var_cache = {}
